@@ -162,6 +162,28 @@ def make_saturating(ctx, count):
     return scns
 
 
+def make_churn(ctx, count):
+    """the pending record is steered to particular fill levels (powers of two, multiples of 256, the bound) and poked there;
+    sawtooth histories pass more than 1024 observations through one session without ever draining it (G.obs_churn)"""
+    scns = []
+    for i in range(count):
+        rng = G.rng_for(ctx.seed, "C07churn", i)
+        mtu = rng.choice([576, 1500, 1500, 9000])
+        cfg = G.rand_cfg(rng, mtu=mtu)
+        net = G.Net(rng, cfg["mac"])
+        m = rng.randrange(len(net.mappers))
+        bridged = rng.random() < 0.2
+        frames, mtu_changes, st = G.obs_churn(rng, net, m, mtu, mode=["boundaries", "sawtooth", "small", "flood"][i % 4],
+                                             budget=ctx.n(1800, 4000), bridged=bridged)
+        s = H.Scenario("ch%d" % i, meta=dict(frames=frames, own=cfg["mac"], mtu=mtu, bridged=bridged, mtu_changes=mtu_changes,
+                                             churn=st))
+        s.iface(0, **H.iface_kw(cfg)).glob(**G.global_kw(G.rand_global(rng, icon_size=50)))
+        s.add("OPT sleep=0")
+        s.frames(0, frames, inserts={k: ["MTU 0 %d %d" % (v, cfg["rxseed"])] for k, v in mtu_changes.items()})
+        scns.append(s)
+    return scns
+
+
 def monitor(scn, sobj, rep, sf, ck):
     frames = sobj.meta["frames"]
     own, mtu = sobj.meta["own"], sobj.meta["mtu"]
@@ -284,6 +306,15 @@ def monitor(scn, sobj, rep, sf, ck):
             maybe.clear()
         if pending_before >= cap:
             seen.add("at-or-over-capacity")
+    if sobj.meta.get("churn") and queries:
+        st = sobj.meta["churn"]
+        rep.count("churn_histories")
+        rep.count("churn_partial_queries", st["partial"])
+        if st["max_passed"] > SEE_CAP:
+            rep.count("churn_more_than_1024_passed_through_one_undrained_session")
+        for lv in st["levels"]:
+            if lv in (16, 32, 64, 128, 256, 512, 768, 1024):
+                rep.count("churn_level:%d" % lv)
     rep.evaluations += queries
     rep.count("queries_judged", queries)
     rep.count("observations_listed", listed_total)
@@ -305,7 +336,7 @@ def run(ctx):
                        "probes are sent with the topology-discovery service type; mixed addressing is C10's question"]
     binary, plain = H.build_many(ctx.work, [dict(flavour="asan"), dict(flavour="plain")])
     scns = make_scenarios(ctx, ctx.n(400, 12000))
-    scns = scns + make_saturating(ctx, ctx.n(12, 120))
+    scns = scns + make_saturating(ctx, ctx.n(12, 120)) + make_churn(ctx, ctx.n(48, 800))
     run_monitored(ctx, binary, scns, monitor, tag="query")
     # once more without red zones: a corrupted record that makes the sanitizer stop the child is, on the plain
     # build, visible as lost / duplicated / invented observations
@@ -317,5 +348,9 @@ def run(ctx):
     rep.need("queries_judged", c.get("queries_judged", 0), 2000)
     for name in ("fresh-observations-reported-after-the-bound-was-reached-and-drained", "more-bit", "bridged", "direct", "drain>=3-queries", "empty-query", "at-or-over-capacity", "mtu-changed-mid-history"):
         rep.need(name, c.get("reach:" + name, 0), 10)
+    rep.need("churn_histories", c.get("churn_histories", 0), 40)
+    rep.need("churn_more_than_1024_passed_through_one_undrained_session", c.get("churn_more_than_1024_passed_through_one_undrained_session", 0), 8)
+    for lv in (256, 512, 1024):
+        rep.need("churn_level:%d" % lv, c.get("churn_level:%d" % lv, 0), 4)
     rep.need("clock_gaps_between_frames", rep.counters.get("clock_gaps_between_frames", 0), 200)
     rep.need("inputs_of_a_second_interface_in_between", rep.counters.get("inputs_of_a_second_interface_in_between", 0), 500)
